@@ -612,6 +612,21 @@ def _assign_rule(rep, mod, results, tagD, D, n):
             conds = sorted(typestate.short_t(c, 70) + ("" if v else " [false]") for c, v in r["pc"].items())
             bad.append("an in-place path compares only the number of items, not the extents of the items with the extents of the array's rows "
                        "(conditions: %s): items of another shape are copied over rows of the old shape" % "; ".join(conds)[:260])
+    # the items' extents are compared by dereferencing both `first` and `begin()`: only on paths that have established a non-empty range (for an
+    # empty range over an empty array `*begin()` designates nothing: a null or dangling element pointer)
+    if D > 1:
+        ext_eq2 = re.compile(r"extensions_t::operator==|operator==\(extensions_t const&")
+        rng_eq = re.compile(r"array_iterator::operator==\(array_iterator const&\) const")
+        for r in results[n]:
+            derefs = [c for c, v in r["pc"].items() if ext_eq2.search(repr(c)) and "operator*() const" in repr(c) and "('param', 1)" in repr(c) and "('param', 0)" in repr(c)]
+            if not derefs:
+                continue
+            nonempty = any(rng_eq.search(repr(c)) and "('param', 1)" in repr(c) and "('param', 2)" in repr(c) and not v for c, v in r["pc"].items())
+            counted_nonzero = any(("adl_distance" in repr(c) or "initializer_list::size() const" in repr(c)) and "('c', 0)" in repr(c) and "'cmp', 'eq'" in repr(c) and not v for c, v in r["pc"].items())
+            if not (nonempty or counted_nonzero) and "iters" in n:
+                bad.append("the extents of *first and *begin() are compared on a path that has not established first != last: for an empty range over an empty "
+                           "array both are dereferenced although they designate nothing")
+                break
     if not inplace:
         bad.append("no in-place path found")
     if not rebuilt:
